@@ -1345,10 +1345,16 @@ class ChunkedEncoder:
         Write the given request body bytes to the transport using chunked
         encoding.
 
+        A zero-length chunk is the I{last-chunk} which terminates the body, so
+        an empty C{data} writes nothing; only L{unregisterProducer} ends the
+        body.
+
         @type data: C{bytes}
         """
         if self.transport is None:
             raise ExcessWrite()
+        if not data:
+            return
         self.transport.writeSequence(
             (networkString("%x\r\n" % len(data)), data, b"\r\n")
         )
@@ -1357,7 +1363,9 @@ class ChunkedEncoder:
         """
         Indicate that the request body is complete and finish the request.
         """
-        self.write(b"")
+        if self.transport is None:
+            raise ExcessWrite()
+        self.transport.writeSequence((b"0\r\n", b"\r\n"))
         self.transport.unregisterProducer()
         self._allowNoMoreWrites()
 
